@@ -3,8 +3,10 @@ package main
 import (
 	"encoding/json"
 	"fmt"
+	"github.com/Vedant9500/WTF/internal/database"
 	"math/rand"
 	"sort"
+	"strings"
 	"sync"
 	"time"
 	"unsafe"
@@ -37,6 +39,8 @@ type c18Case struct {
 	Sum     string      `json:"sum"`
 	Counts  []int64     `json:"counts,omitempty"`
 	Pcts    [][2]string `json:"pcts,omitempty"`
+	Exp     [][2]string `json:"exp,omitempty"` // (p, value) as exported by the collector for a histogram fed the same observations
+	ExpCS   [2]string   `json:"exp_cs"`        // exported count and sum
 	MOps    []c18MOp    `json:"mops,omitempty"`
 	Totals  []c18Tot    `json:"totals,omitempty"`
 }
@@ -238,6 +242,7 @@ func c18GenHist(r *rand.Rand, id int) c18Case {
 		c.Buckets = append(c.Buckets, hexf(b))
 	}
 	n := r.Intn(60)
+	var raw []float64
 	pool := []float64{0, 0.1, 0.05, 0.5, 0.7, 1, 2.5, 3.3, 10, 99.9, 100, 1e4, 1e4 + 1, 5e6, 0.30000000000000004, 1e-9}
 	for i := 0; i < n; i++ {
 		v := pool[r.Intn(len(pool))]
@@ -245,6 +250,7 @@ func c18GenHist(r *rand.Rand, id int) c18Case {
 			v = r.Float64() * 300
 		}
 		h.Observe(v)
+		raw = append(raw, v)
 		c.Vals = append(c.Vals, hexf(v))
 	}
 	c.Count = h.Count()
@@ -254,10 +260,95 @@ func c18GenHist(r *rand.Rand, id int) c18Case {
 	for _, p := range ps {
 		c.Pcts = append(c.Pcts, [2]string{hexf(p), hexf(h.Percentile(p))})
 	}
+	if len(bs) == len(metrics.VerifDefaultBuckets()) {
+		// the same observations in a histogram registered with a collector: what the collector exports for it
+		col := metrics.NewCollector()
+		h2 := col.Histogram("lat", nil)
+		for _, v := range raw {
+			h2.Observe(v)
+		}
+		for _, m := range col.GetAllMetrics() {
+			switch m.Name {
+			case "lat_p50":
+				c.Exp = append(c.Exp, [2]string{hexf(50), hexf(m.Value)})
+			case "lat_p90":
+				c.Exp = append(c.Exp, [2]string{hexf(90), hexf(m.Value)})
+			case "lat_p95":
+				c.Exp = append(c.Exp, [2]string{hexf(95), hexf(m.Value)})
+			case "lat_p99":
+				c.Exp = append(c.Exp, [2]string{hexf(99), hexf(m.Value)})
+			case "lat_count":
+				c.ExpCS[0] = hexf(m.Value)
+			case "lat_sum":
+				c.ExpCS[1] = hexf(m.Value)
+			}
+		}
+	}
+	return c
+}
+
+// c18GenMonReal: the operations are real ones - searches through the monitoring wrapper's two entry points (queries that
+// match, queries of unknown words, empty and stop-word-only queries, repeats) and monitored reloads; every one of them is one
+// recorded operation, whatever it found.
+func c18GenMonReal(r *rand.Rand, id int) c18Case {
+	c := c18Case{ID: id, Kind: "mon"}
+	cmds := eGenDB(r)
+	for len(cmds) < 6 {
+		cmds = append(cmds, eGenCommand(r))
+	}
+	mdb := database.NewMonitoredDatabase(database.VerifFresh(cmds))
+	pool := []string{eGenQuery(r, cmds), eGenQuery(r, cmds), eGenQuery(r, cmds), "zzqx unknownword", "", "the of", "  ", "qqqqzz"}
+	seen := map[string]bool{}
+	n := 5 + r.Intn(40)
+	for i := 0; i < n; i++ {
+		if r.Intn(8) == 0 {
+			mdb.LoadDatabaseWithMonitoring(append([]database.Command(nil), cmds...))
+			seen = map[string]bool{}
+			c.MOps = append(c.MOps, c18MOp{Op: ints("load"), Ok: true})
+			continue
+		}
+		q := pool[r.Intn(len(pool))]
+		entry := r.Intn(2)
+		key := fmt.Sprint(entry) + "|" + strings.ToLower(strings.TrimSpace(q))
+		var res []database.SearchResult
+		if entry == 0 {
+			res = mdb.SearchWithMonitoring(q, 5)
+		} else {
+			res = mdb.SearchWithOptionsAndMonitoring(q, database.SearchOptions{Limit: 5, AllPlatforms: true})
+		}
+		c.MOps = append(c.MOps, c18MOp{Search: true, Hit: seen[key]})
+		if len(res) > 0 {
+			seen[key] = true
+		}
+	}
+	tot := map[string]*c18Tot{}
+	for _, m := range mdb.GetPerformanceReport().ApplicationMetrics {
+		if m.Type != metrics.MetricTypeCounter {
+			continue
+		}
+		t := tot[m.Name]
+		if t == nil {
+			t = &c18Tot{Name: ints(m.Name)}
+			tot[m.Name] = t
+		}
+		t.Total += int64(m.Value)
+		t.Series++
+	}
+	names := make([]string, 0, len(tot))
+	for k := range tot {
+		names = append(names, k)
+	}
+	sort.Strings(names)
+	for _, k := range names {
+		c.Totals = append(c.Totals, *tot[k])
+	}
 	return c
 }
 
 func c18GenMon(r *rand.Rand, id int, conc bool) c18Case {
+	if id%4 == 2 && !conc {
+		return c18GenMonReal(r, id)
+	}
 	c := c18Case{ID: id, Kind: "mon", Conc: conc}
 	pm := metrics.NewPerformanceMonitor()
 	opsNames := []string{"load", "search", "save", "a:b", ""}
